@@ -32,6 +32,14 @@ var errSpecialEnvelope = errorf(
 	io.EOF,
 )
 
+// newEndOfStreamError returns a copy of errSpecialEnvelope to hand to user
+// code. errSpecialEnvelope itself is shared by every stream: returning it
+// from Receive lets concurrent calls race on it (Error.Meta allocates
+// lazily) and makes metadata that one caller attaches visible to all others.
+func newEndOfStreamError() *Error {
+	return &Error{code: errSpecialEnvelope.code, err: errSpecialEnvelope.err}
+}
+
 // envelope is a block of arbitrary bytes wrapped in gRPC and Connect's framing
 // protocol.
 //
